@@ -354,6 +354,50 @@ class _O:
         self.__dict__.update(kw)
 
 
+def generator_kernel(V, accel):
+    """the shared-buffer layout the command-stream generator programs (IFM_IB_END, AB_START) is derived by get_arch_block_config from the
+    operation's kernel: the kernel description it hands to try_block_config carries the operation's own width, height, strides and dilations -
+    x in x, y in y - for symbolic values (the KERNEL_* registers are written from the NpuKernel directly, so a slip here leaves them correct and
+    only the layout wrong)."""
+    import ethosu.vela.api as api
+    import ethosu.vela.register_command_stream_generator as g
+    import ethosu.vela.register_command_stream_util as u
+    from harness.c04 import arch_for
+
+    arch = arch_for(accel)
+    kw, kh = V.int("kernel_w", 1, 8), V.int("kernel_h", 1, 8)
+    sx, sy = V.int("stride_x", 1, 3), V.int("stride_y", 1, 3)
+    dx, dy = V.int("dilation_x", 1, 2), V.int("dilation_y", 1, 2)
+    op = _mk_op("conv", 8, "full", 0, None, 0, api.NpuBlockTraversal.DEPTH_FIRST)
+    op.kernel = api.NpuKernel(kw, kh, sx, sy, dx, dy)
+    op.block_config = api.NpuShape3D(4, 8, 16)
+    cap = {}
+
+    def stub(block_config, arch_, *a, **k):
+        names = ["npu_op_type", "ofm_shape", "ifm_shape", "ifm2_shape", "uses_scalar", "ifm_bits", "is_partkernel", "kernel", "lut_banks", "scaled", "ifm_resampling"]
+        d = dict(zip(names, a))
+        d.update(k)
+        cap.update(d)
+        raise _Stop()
+
+    saved = g.try_block_config
+    g.try_block_config = stub
+    try:
+        with core.shims((u, {"min": core.smin, "max": core.smax}), (g, {"min": core.smin, "max": core.smax})):
+            try:
+                g.get_arch_block_config(op, api.NpuBlockTraversal.DEPTH_FIRST, arch)
+            except _Stop:
+                pass
+    finally:
+        g.try_block_config = saved
+    k = cap.get("kernel")
+    if k is None:
+        return [("the generator asks for a layout", False)]
+    return [("kernel width and height", z3.And(L(k.width) == L(kw), L(k.height) == L(kh))),
+            ("strides: x in x, y in y", z3.And(L(k.stride.x) == L(sx), L(k.stride.y) == L(sy))),
+            ("dilations: x in x, y in y", z3.And(L(k.dilation.x) == L(dx), L(k.dilation.y) == L(dy)))]
+
+
 def accepts_minimal(V, accel, kind, bits, lut):
     """liveness of the validity check (the `layout` lemma lets try_block_config reject anything): the smallest legal block - one micro-block - is
     accepted for every operation kind, data width and IFM depth; a check that rejected everything would leave the scheduler without any
@@ -376,7 +420,7 @@ def accepts_minimal(V, accel, kind, bits, lut):
     return [("one micro-block is accepted", cfg is not None)]
 
 
-FUNCS = {"accepts_minimal": accepts_minimal, "sched_search": sched_search, "layout": layout, "invalid_rejected": invalid_rejected, "query": query, "search": search}
+FUNCS = {"generator_kernel": generator_kernel, "accepts_minimal": accepts_minimal, "sched_search": sched_search, "layout": layout, "invalid_rejected": invalid_rejected, "query": query, "search": search}
 
 
 def instances(tier, seed):
@@ -432,6 +476,8 @@ def instances(tier, seed):
                 for (oh, ow, od) in ((1, 32, 64), (16, 16, 32), (8, 64, 16)):
                     out.append(dict(key="sched_search/%s/%s/lut%d/%dx%dx%d" % (accel, kind, lut, oh, ow, od), fn="sched_search",
                                     params=dict(accel=accel, kind=kind, lut=lut, oh=oh, ow=ow, od=od)))
+        if accel in ("Ethos_U55_128", "Ethos_U65_512"):
+            out.append(dict(key="generator_kernel/%s" % accel, fn="generator_kernel", params=dict(accel=accel)))
         for which in ("w", "h", "d"):
             out.append(dict(key="invalid_rejected/%s/%s" % (accel, which), fn="invalid_rejected", params=dict(accel=accel, which=which)))
         for kind in ("conv", "dw", "pool", "ew"):
